@@ -56,6 +56,27 @@ Definition n_schi := name4 115 99 104 105.
 Definition n_mfra := name4 109 102 114 97.
 Definition n_tref := name4 116 114 101 102.
 Definition n_elst := name4 101 108 115 116.
+Definition n_stsc := name4 115 116 115 99.
+Definition n_stsz := name4 115 116 115 122.
+Definition n_stco := name4 115 116 99 111.
+Definition n_co64 := name4 99 111 54 52.
+Definition n_stss := name4 115 116 115 115.
+Definition n_sdtp := name4 115 100 116 112.
+Definition n_ctts := name4 99 116 116 115.
+Definition n_saiz := name4 115 97 105 122.
+Definition n_saio := name4 115 97 105 111.
+Definition n_sbgp := name4 115 98 103 112.
+Definition n_prft := name4 112 114 102 116.
+Definition n_tenc := name4 116 101 110 99.
+Definition n_frma := name4 102 114 109 97.
+Definition n_vmhd := name4 118 109 104 100.
+Definition n_smhd := name4 115 109 104 100.
+Definition n_nmhd := name4 110 109 104 100.
+Definition n_sthd := name4 115 116 104 100.
+Definition n_mfro := name4 109 102 114 111.
+Definition n_mehd := name4 109 101 104 100.
+Definition n_tfra := name4 116 102 114 97.
+Definition n_pssh := name4 112 115 115 104.
 
 (* ---------------------------------------------------------------- box header (box.go / boxsr.go) *)
 Record hdr := mkHdr { h_name : list N; h_size : N; h_len : N }.
@@ -99,7 +120,28 @@ Inductive leaf :=
 | LTrex (version flags trackID dsdi dur size sflags : N)
 | LMdhd (version flags ctime mtime timescale duration language : N)
 | LHdlr (version flags preDefined : N) (handlerType : list N) (name : list N) (lacksNull : bool)
-| LStts (version flags : N) (entries : list (N * N)).
+| LStts (version flags : N) (entries : list (N * N))
+(* --- stage 2 --- *)
+| LStsc (version flags : N) (entries : list (N * N)) (single : N) (ids : list N)
+        (* Entries (FirstChunk, SamplesPerChunk), singleSampleDescriptionID, SampleDescriptionID *)
+| LStsz (version flags uniform number : N) (sizes : list N)
+| LTab (name : list N) (w : nat) (version flags : N) (items : list N)   (* stco, stss (w=4), co64 (w=8) *)
+| LSdtp (version flags : N) (entries : list N)
+| LCtts (version flags : N) (ends : list N) (offsets : list N)           (* EndSampleNr, SampleOffset *)
+| LElst (version flags : N) (entries : list (N * N * N * N))
+| LSaiz (version flags : N) (auxType : list N) (auxParam dflt count : N) (info : list N)
+| LSaio (version flags : N) (auxType : list N) (auxParam : N) (offs : list N)
+| LSbgp (version flags : N) (gtype : list N) (gparam : N) (entries : list (N * N))
+| LPrft (version flags refID ntp mediatime : N)
+| LTenc (version flags crypt skip isProt ivSize : N) (kid : list N) (constIV : list N)
+| LFrma (fmt : list N)
+| LVmhd (version flags mode c0 c1 c2 : N)
+| LSmhd (version flags balance : N)
+| LFullOnly (name : list N) (version flags : N)                           (* nmhd, sthd *)
+| LMfro (version flags parentSize : N)
+| LMehd (version flags duration : N)
+| LTfra (version flags trackID lt lr ls : N) (entries : list (N * N * N * N * N))
+| LPssh (version flags : N) (sysid : list N) (kids : list (list N)) (data : list N).
 
 Definition leaf_name (l : leaf) : list N :=
   match l with
@@ -108,6 +150,11 @@ Definition leaf_name (l : leaf) : list N :=
   | LMvhd _ _ _ _ _ _ _ _ _ => n_mvhd | LTkhd _ _ _ _ _ _ _ _ _ _ _ => n_tkhd
   | LSidx _ _ _ _ _ _ _ => n_sidx | LTrex _ _ _ _ _ _ _ => n_trex | LMdhd _ _ _ _ _ _ _ => n_mdhd
   | LHdlr _ _ _ _ _ _ => n_hdlr | LStts _ _ _ => n_stts
+  | LStsc _ _ _ _ _ => n_stsc | LStsz _ _ _ _ _ => n_stsz | LTab n _ _ _ _ => n | LSdtp _ _ _ => n_sdtp
+  | LCtts _ _ _ _ => n_ctts | LElst _ _ _ => n_elst | LSaiz _ _ _ _ _ _ _ => n_saiz | LSaio _ _ _ _ _ => n_saio
+  | LSbgp _ _ _ _ _ => n_sbgp | LPrft _ _ _ _ _ => n_prft | LTenc _ _ _ _ _ _ _ _ => n_tenc | LFrma _ => n_frma
+  | LVmhd _ _ _ _ _ _ => n_vmhd | LSmhd _ _ _ => n_smhd | LFullOnly n _ _ => n | LMfro _ _ _ => n_mfro
+  | LMehd _ _ _ => n_mehd | LTfra _ _ _ _ _ _ _ => n_tfra | LPssh _ _ _ _ _ => n_pssh
   end.
 
 Definition unity_matrix : list N :=
@@ -270,6 +317,191 @@ Definition dec_stts (h : hdr) : parser (leaf * rsvT) :=
     (pdo es <- rd_many (S (length bs)) cnt rd_pair ;;
      pret (LStts (vf_version vf) (vf_flags vf) es, [])) bs.
 
+(* ================================================================ stage 2 leaf kinds *)
+Definition rdB_if (c : bool) (n : N) : parser (list N) := if c then rdB n else pret [].
+
+(* ---------------------------------------------------------------- stsc *)
+(* the per-entry loop of DecodeStscSR on the sample description ids: (singleSampleDescriptionID, SampleDescriptionID);
+   SampleDescriptionID is `make([]uint32, entryCount)` at the switch, modelled by the prefix filled so far *)
+Definition rd_triple : parser (N * N * N) := pdo a <- rd 4 ;; pdo b <- rd 4 ;; pdo c <- rd 4 ;; pret (a, b, c).
+Definition wr_triple (t : N * N * N) : list N := be_enc 4 (fst (fst t)) ++ be_enc 4 (snd (fst t)) ++ be_enc 4 (snd t).
+Fixpoint stsc_ids (i : nat) (single : N) (ids : list N) (sdis : list N) : option (N * list N) :=
+  match sdis with
+  | [] => Some (single, ids)
+  | sdi :: t =>
+      if sdi =? 0 then None                                  (* "stsc sample description id is 0" *)
+      else match i with
+           | O => stsc_ids 1 sdi ids t
+           | S _ =>
+               if negb (sdi =? single) then
+                 (if negb (single =? 0) then stsc_ids (S i) 0 (repeat single i ++ [sdi]) t
+                  else stsc_ids (S i) single (ids ++ [sdi]) t)
+               else stsc_ids (S i) single (if single =? 0 then ids ++ [sdi] else ids) t
+           end
+  end.
+Definition dec_stsc (h : hdr) : parser (leaf * rsvT) :=
+  pdo vf <- rd 4 ;; pdo cnt <- rd 4 ;;
+  if negb (h_size h =? 16 + cnt * 12) then pfail else
+  fun bs =>
+    (pdo es <- rd_many (S (length bs)) cnt rd_triple ;;
+     match stsc_ids 0 0 [] (map snd es) with
+     | None => pfail
+     | Some (single, ids) => pret (LStsc (vf_version vf) (vf_flags vf) (map fst es) single ids, [])
+     end) bs.
+Fixpoint wr_stsc (es : list (N * N)) (single : N) (ids : list N) : list N :=
+  match es with
+  | [] => []
+  | (fc, spc) :: t =>
+      be_enc 4 fc ++ be_enc 4 spc ++ be_enc 4 (if negb (single =? 0) then single else hd 0 ids) ++
+      wr_stsc t single (tl ids)
+  end.
+
+(* ---------------------------------------------------------------- stsz *)
+Definition dec_stsz (h : hdr) : parser (leaf * rsvT) :=
+  pdo vf <- rd 4 ;; pdo uni <- rd 4 ;; pdo num <- rd 4 ;;
+  if negb (h_size h =? (if 0 <? uni then 20 else 20 + num * 4)) then pfail else
+  if uni =? 0 then
+    fun bs => (pdo ss <- rd_many (S (length bs)) num (rd 4) ;;
+               pret (LStsz (vf_version vf) (vf_flags vf) uni num ss, [])) bs
+  else pret (LStsz (vf_version vf) (vf_flags vf) uni num [], []).
+
+(* ---------------------------------------------------------------- stco / stss / co64 *)
+Definition dec_tab (w : nat) (h : hdr) : parser (leaf * rsvT) :=
+  pdo vf <- rd 4 ;; pdo cnt <- rd 4 ;;
+  if negb (h_size h =? 16 + cnt * N.of_nat w) then pfail else
+  fun bs => (pdo es <- rd_many (S (length bs)) cnt (rd w) ;;
+             pret (LTab (h_name h) w (vf_version vf) (vf_flags vf) es, [])) bs.
+
+(* ---------------------------------------------------------------- sdtp *)
+Definition dec_sdtp (h : hdr) : parser (leaf * rsvT) :=
+  pdo vf <- rd 4 ;;
+  if payload_len h <? 4 then pfail else
+  pdo es <- rdB (payload_len h - 4) ;;
+  pret (LSdtp (vf_version vf) (vf_flags vf) es, []).
+
+(* ---------------------------------------------------------------- ctts *)
+(* EndSampleNr[i+1] = EndSampleNr[i] + sampleCount in uint32 *)
+Fixpoint ctts_ends (acc : N) (es : list (N * N)) : list N :=
+  match es with [] => [] | (c, _) :: t => let a := u32 (acc + c) in a :: ctts_ends a t end.
+Definition dec_ctts (h : hdr) : parser (leaf * rsvT) :=
+  pdo vf <- rd 4 ;; pdo cnt <- rd 4 ;;
+  if negb (h_size h =? 16 + cnt * 8) then pfail else
+  fun bs => (pdo es <- rd_many (S (length bs)) cnt rd_pair ;;
+             pret (LCtts (vf_version vf) (vf_flags vf) (0 :: ctts_ends 0 es) (map snd es), [])) bs.
+(* sampleCount := EndSampleNr[i+1] - EndSampleNr[i] in uint32 *)
+Fixpoint wr_ctts (ends offs : list N) : list N :=
+  match offs, ends with
+  | o :: ot, e0 :: ((e1 :: _) as et) => be_enc 4 (u32 (e1 + 4294967296 - e0)) ++ be_enc 4 o ++ wr_ctts et ot
+  | _, _ => []
+  end.
+
+(* ---------------------------------------------------------------- elst *)
+Definition rd_elst (w : nat) : parser (N * N * N * N) :=
+  pdo d <- rd w ;; pdo t <- rd w ;; pdo ri <- rd 2 ;; pdo rf <- rd 2 ;; pret (d, t, ri, rf).
+Definition wr_elst (w : nat) (e : N * N * N * N) : list N :=
+  match e with (d, t, ri, rf) => be_enc w d ++ be_enc w t ++ be_enc 2 ri ++ be_enc 2 rf end.
+Definition dec_elst (h : hdr) : parser (leaf * rsvT) :=
+  pdo vf <- rd 4 ;; pdo cnt <- rd 4 ;;
+  let v := vf_version vf in
+  if negb (h_size h =? 16 + cnt * (if v =? 1 then 20 else 12)) then pfail else
+  if 1 <? v then pfail else
+  fun bs => (pdo es <- rd_many (S (length bs)) cnt (rd_elst (if v =? 1 then 8%nat else 4%nat)) ;;
+             pret (LElst v (vf_flags vf) es, [])) bs.
+
+(* ---------------------------------------------------------------- saiz / saio *)
+Definition dec_saiz (h : hdr) : parser (leaf * rsvT) :=
+  pdo vf <- rd 4 ;;
+  let fl := vf_flags vf in
+  pdo at_ <- rdB_if (has fl 1) 4 ;; pdo ap <- rd_if (has fl 1) 4 ;;
+  pdo dflt <- rd 1 ;; pdo cnt <- rd 4 ;;
+  if negb (h_size h =? 17 + (if has fl 1 then 8 else 0) + (if dflt =? 0 then cnt else 0)) then pfail else
+  if dflt =? 0 then
+    fun bs => (pdo info <- rd_many (S (length bs)) cnt (rd 1) ;;
+               pret (LSaiz (vf_version vf) fl at_ ap dflt cnt info, [])) bs
+  else pret (LSaiz (vf_version vf) fl at_ ap dflt cnt [], []).
+
+Definition dec_saio (h : hdr) : parser (leaf * rsvT) :=
+  pdo vf <- rd 4 ;;
+  let fl := vf_flags vf in let v := vf_version vf in
+  pdo at_ <- rdB_if (has fl 1) 4 ;; pdo ap <- rd_if (has fl 1) 4 ;;
+  pdo cnt <- rd 4 ;;
+  if negb (h_size h =? 16 + (if has fl 1 then 8 else 0) + (if v =? 0 then 4 else 8) * cnt) then pfail else
+  fun bs => (pdo os <- rd_many (S (length bs)) cnt (rd (if v =? 0 then 4%nat else 8%nat)) ;;
+             pret (LSaio v fl at_ ap os, [])) bs.
+
+(* ---------------------------------------------------------------- sbgp *)
+Definition dec_sbgp (h : hdr) : parser (leaf * rsvT) :=
+  pdo vf <- rd 4 ;;
+  let v := vf_version vf in
+  pdo gt <- rdB 4 ;; pdo gp <- rd_if (v =? 1) 4 ;; pdo cnt <- rd 4 ;;
+  if negb (h_size h =? 20 + (if v =? 1 then 4 else 0) + 8 * cnt) then pfail else
+  fun bs => (pdo es <- rd_many (S (length bs)) cnt rd_pair ;;
+             pret (LSbgp v (vf_flags vf) gt gp es, [])) bs.
+
+(* ---------------------------------------------------------------- prft *)
+Definition dec_prft (h : hdr) : parser (leaf * rsvT) :=
+  pdo vf <- rd 4 ;; pdo rid <- rd 4 ;; pdo ntp <- rd 8 ;;
+  pdo mt <- (if vf_version vf =? 0 then rd 4 else rd 8) ;;
+  pret (LPrft (vf_version vf) (vf_flags vf) rid ntp mt, []).
+
+(* ---------------------------------------------------------------- tenc *)
+Definition dec_tenc (h : hdr) : parser (leaf * rsvT) :=
+  pdo vf <- rd 4 ;;
+  let v := vf_version vf in
+  pdo r1 <- rdB 1 ;;
+  pdo r2 <- rdB_if (v =? 0) 1 ;;
+  pdo info <- rd_if (negb (v =? 0)) 1 ;;
+  pdo isp <- rd 1 ;; pdo ivs <- rd 1 ;; pdo kid <- rdB 16 ;;
+  if (isp =? 1) && (ivs =? 0) then
+    (pdo n <- rd 1 ;; pdo iv <- rdB n ;;
+     pret (LTenc v (vf_flags vf) (info / 16) (info mod 16) isp ivs kid iv, [r1; r2]))
+  else pret (LTenc v (vf_flags vf) (info / 16) (info mod 16) isp ivs kid [], [r1; r2]).
+
+(* ---------------------------------------------------------------- frma, vmhd, smhd, nmhd, sthd, mfro, mehd *)
+Definition dec_frma (h : hdr) : parser (leaf * rsvT) :=
+  if negb (payload_len h =? 4) then pfail else pdo f <- rdB 4 ;; pret (LFrma f, []).
+Definition dec_vmhd (h : hdr) : parser (leaf * rsvT) :=
+  pdo vf <- rd 4 ;; pdo m <- rd 2 ;; pdo c0 <- rd 2 ;; pdo c1 <- rd 2 ;; pdo c2 <- rd 2 ;;
+  pret (LVmhd (vf_version vf) (vf_flags vf) m c0 c1 c2, []).
+Definition dec_smhd (h : hdr) : parser (leaf * rsvT) :=
+  pdo vf <- rd 4 ;; pdo b <- rd 2 ;; pdo r2 <- rdB 2 ;;
+  pret (LSmhd (vf_version vf) (vf_flags vf) b, [r2]).
+Definition dec_fullonly (h : hdr) : parser (leaf * rsvT) :=
+  pdo vf <- rd 4 ;; pret (LFullOnly (h_name h) (vf_version vf) (vf_flags vf), []).
+Definition dec_mfro (h : hdr) : parser (leaf * rsvT) :=
+  pdo vf <- rd 4 ;; pdo ps <- rd 4 ;; pret (LMfro (vf_version vf) (vf_flags vf) ps, []).
+Definition dec_mehd (h : hdr) : parser (leaf * rsvT) :=
+  pdo vf <- rd 4 ;; pdo d <- (if vf_version vf =? 0 then rd 4 else rd 8) ;;
+  pret (LMehd (vf_version vf) (vf_flags vf) d, []).
+
+(* ---------------------------------------------------------------- tfra *)
+(* the reserved 26 bits of the sizes word are kept as the number sizesBlock / 64 (a one-element chunk) *)
+Definition rd_tfra (w nt nr ns : nat) : parser (N * N * N * N * N) :=
+  pdo t <- rd w ;; pdo mo <- rd w ;; pdo a <- rd nt ;; pdo b <- rd nr ;; pdo c <- rd ns ;; pret (t, mo, a, b, c).
+Definition wr_tfra (w nt nr ns : nat) (e : N * N * N * N * N) : list N :=
+  match e with (t, mo, a, b, c) => be_enc w t ++ be_enc w mo ++ be_enc nt a ++ be_enc nr b ++ be_enc ns c end.
+Definition tfra_w (v : N) : nat := if v =? 1 then 8%nat else 4%nat.
+Definition tfra_n (l : N) : nat := N.to_nat (1 + l).      (* ReadUint8/16/24/32 for length size 0..3 *)
+Definition dec_tfra (h : hdr) : parser (leaf * rsvT) :=
+  pdo vf <- rd 4 ;; pdo tid <- rd 4 ;; pdo sb <- rd 4 ;; pdo cnt <- rd 4 ;;
+  let v := vf_version vf in
+  let lt := (sb / 16) mod 4 in let lr := (sb / 4) mod 4 in let ls := sb mod 4 in
+  if negb (h_size h =? 24 + cnt * ((if v =? 1 then 16 else 8) + (1 + lt) + (1 + lr) + (1 + ls))) then pfail else
+  fun bs => (pdo es <- rd_many (S (length bs)) cnt (rd_tfra (tfra_w v) (tfra_n lt) (tfra_n lr) (tfra_n ls)) ;;
+             pret (LTfra v (vf_flags vf) tid lt lr ls es, [[sb / 64]])) bs.
+
+(* ---------------------------------------------------------------- pssh *)
+Definition dec_pssh (h : hdr) : parser (leaf * rsvT) :=
+  pdo vf <- rd 4 ;;
+  let v := vf_version vf in
+  pdo sid <- rdB 16 ;;
+  pdo kc <- rd_if (0 <? v) 4 ;;
+  fun bs =>
+    (pdo kids <- rd_many (S (length bs)) kc (rdB 16) ;;
+     pdo dl <- rd 4 ;;
+     pdo data <- rdB dl ;;
+     pret (LPssh v (vf_flags vf) sid kids data, [])) bs.
+
 (* ---------------------------------------------------------------- encoders (bodies) *)
 Definition ok_bytes (l : list N) : res (list N) := Ok l.
 
@@ -311,6 +543,49 @@ Definition body_leaf (l : leaf) (r : rsvT) : res (list N) :=
       Ok (be_enc 4 (vf_join v f) ++ be_enc 4 pd ++ ht ++ chunk 0 r ++ name ++ (if lacks then [] else [0]))
   | LStts v f es =>
       Ok (be_enc 4 (vf_join v f) ++ be_enc 4 (lenN es) ++ flat_map wr_pair es)
+  | LStsc v f es single ids =>
+      (* b.SampleDescriptionID[i] panics when the slice is shorter than Entries *)
+      if (single =? 0) && (lenN ids <? lenN es) then Panic
+      else Ok (be_enc 4 (vf_join v f) ++ be_enc 4 (lenN es) ++ wr_stsc es single ids)
+  | LStsz v f uni num ss =>
+      Ok (be_enc 4 (vf_join v f) ++ be_enc 4 uni ++
+          (if lenN ss =? 0 then be_enc 4 num else be_enc 4 (lenN ss) ++ flat_map (be_enc 4) ss))
+  | LTab _ w v f items => Ok (be_enc 4 (vf_join v f) ++ be_enc 4 (lenN items) ++ flat_map (be_enc w) items)
+  | LSdtp v f es => Ok (be_enc 4 (vf_join v f) ++ es)
+  | LCtts v f ends offs =>
+      if negb (lenN ends =? 1 + lenN offs) then Panic     (* EndSampleNr[i+1] out of range *)
+      else Ok (be_enc 4 (vf_join v f) ++ be_enc 4 (lenN offs) ++ wr_ctts ends offs)
+  | LElst v f es =>
+      Ok (be_enc 4 (vf_join v f) ++ be_enc 4 (lenN es) ++ flat_map (wr_elst (if v =? 1 then 8%nat else 4%nat)) es)
+  | LSaiz v f at_ ap dflt cnt info =>
+      if (dflt =? 0) && (lenN info <? cnt) then Panic      (* b.SampleInfo[i] out of range *)
+      else Ok (be_enc 4 (vf_join v f) ++ (if has f 1 then at_ ++ be_enc 4 ap else []) ++ be_enc 1 dflt ++ be_enc 4 cnt ++
+               (if dflt =? 0 then flat_map (be_enc 1) (firstn (N.to_nat cnt) info) else []))
+  | LSaio v f at_ ap os =>
+      Ok (be_enc 4 (vf_join v f) ++ (if has f 1 then at_ ++ be_enc 4 ap else []) ++ be_enc 4 (lenN os) ++
+          flat_map (be_enc (if v =? 0 then 4%nat else 8%nat)) os)
+  | LSbgp v f gt gp es =>
+      Ok (be_enc 4 (vf_join v f) ++ gt ++ wr_if (v =? 1) 4 gp ++ be_enc 4 (lenN es) ++ flat_map wr_pair es)
+  | LPrft v f rid ntp mt =>
+      Ok (be_enc 4 (vf_join v f) ++ be_enc 4 rid ++ be_enc 8 ntp ++ (if v =? 0 then be_enc 4 mt else be_enc 8 mt))
+  | LTenc v f crypt skip isp ivs kid iv =>
+      Ok (be_enc 4 (vf_join v f) ++ chunk 0 r ++
+          (if v =? 0 then chunk 1 r else be_enc 1 (N.lor (u8 (crypt * 16)) skip)) ++
+          be_enc 1 isp ++ be_enc 1 ivs ++ kid ++
+          (if (isp =? 1) && (ivs =? 0) then be_enc 1 (lenN iv) ++ iv else []))
+  | LFrma f => Ok f
+  | LVmhd v f m c0 c1 c2 => Ok (be_enc 4 (vf_join v f) ++ be_enc 2 m ++ be_enc 2 c0 ++ be_enc 2 c1 ++ be_enc 2 c2)
+  | LSmhd v f b => Ok (be_enc 4 (vf_join v f) ++ be_enc 2 b ++ chunk 0 r)
+  | LFullOnly _ v f => Ok (be_enc 4 (vf_join v f))
+  | LMfro v f ps => Ok (be_enc 4 (vf_join v f) ++ be_enc 4 ps)
+  | LMehd v f d => Ok (be_enc 4 (vf_join v f) ++ (if v =? 0 then be_enc 4 d else be_enc 8 d))
+  | LTfra v f tid lt lr ls es =>
+      (* sizesBlock := uint32(LengthSizeOfTrafNum<<4 + LengthSizeOfTrunNum<<2 + LengthSizeOfSampleNum) (byte arithmetic) *)
+      Ok (be_enc 4 (vf_join v f) ++ be_enc 4 tid ++ be_enc 4 (hd 0 (chunk 0 r) * 64 + u8 (lt * 16 + lr * 4 + ls)) ++
+          be_enc 4 (lenN es) ++ flat_map (wr_tfra (tfra_w v) (tfra_n lt) (tfra_n lr) (tfra_n ls)) es)
+  | LPssh v f sid kids data =>
+      Ok (be_enc 4 (vf_join v f) ++ sid ++ (if 0 <? v then be_enc 4 (lenN kids) ++ flat_map (fun k => k) kids else []) ++
+          be_enc 4 (lenN data) ++ data)
   end.
 
 (* what Go writes in the reserved places *)
@@ -321,6 +596,9 @@ Definition dflt_rsv (l : leaf) : rsvT :=
   | LSidx _ _ _ _ _ _ _ => [zeros 2]
   | LMdhd _ _ _ _ _ _ _ => [zeros 2]
   | LHdlr _ _ _ _ _ _ => [zeros 12]
+  | LTenc v _ _ _ _ _ _ _ => if v =? 0 then [zeros 1; zeros 1] else [zeros 1; []]
+  | LSmhd _ _ _ => [zeros 2]
+  | LTfra _ _ _ _ _ _ _ => [[0]]
   | _ => []
   end.
 
@@ -346,6 +624,26 @@ Definition size_leaf (l : leaf) : N :=
   | LMdhd v _ _ _ _ _ _ => if v =? 1 then 44 else 32
   | LHdlr _ _ _ _ name lacks => 8 + 24 + lenN name + 1 - (if lacks then 1 else 0)
   | LStts _ _ es => 16 + u32 (lenN es) * 8
+  | LStsc _ _ es _ _ => 16 + lenN es * 12
+  | LStsz _ _ uni num _ => if 0 <? uni then 20 else 20 + num * 4
+  | LTab _ w _ _ items => 16 + u32 (lenN items) * N.of_nat w
+  | LSdtp _ _ es => 12 + lenN es
+  | LCtts _ _ _ offs => 16 + u32 (lenN offs) * 8
+  | LElst v _ es => 16 + u32 (lenN es) * (if v =? 1 then 20 else 12)
+  | LSaiz _ f _ _ dflt cnt _ => 17 + (if has f 1 then 8 else 0) + (if dflt =? 0 then cnt else 0)
+  | LSaio v f _ _ os => 16 + (if has f 1 then 8 else 0) + (if v =? 0 then 4 else 8) * u32 (lenN os)
+  | LSbgp v _ _ _ es => 20 + (if v =? 1 then 4 else 0) + 8 * u32 (lenN es)
+  | LPrft v _ _ _ _ => if v =? 0 then 28 else 32
+  | LTenc _ _ _ _ isp ivs _ iv => 32 + (if (isp =? 1) && (ivs =? 0) then 1 + lenN iv else 0)
+  | LFrma _ => 12
+  | LVmhd _ _ _ _ _ _ => 20
+  | LSmhd _ _ _ => 16
+  | LFullOnly _ _ _ => 12
+  | LMfro _ _ _ => 16
+  | LMehd v _ _ => 12 + (if v =? 0 then 4 else 8)
+  | LTfra v _ _ lt lr ls es =>
+      24 + u32 (lenN es) * ((if v =? 1 then 16 else 8) + (1 + lt) + (1 + lr) + (1 + ls))
+  | LPssh v _ _ kids data => 32 + lenN data + (if 0 <? v then 4 + 16 * lenN kids else 0)
   end.
 
 (* header written by the leaf encoder *)
@@ -368,7 +666,12 @@ Definition leaf_table : list (list N * (hdr -> parser (leaf * rsvT))) :=
   [ (n_ftyp, dec_ftyp); (n_styp, dec_ftyp); (n_free, dec_free); (n_skip, dec_free); (n_mdat, dec_mdat);
     (n_mfhd, dec_mfhd); (n_tfhd, dec_tfhd); (n_tfdt, dec_tfdt); (n_trun, dec_trun); (n_mvhd, dec_mvhd);
     (n_tkhd, dec_tkhd); (n_sidx, dec_sidx); (n_trex, dec_trex); (n_mdhd, dec_mdhd); (n_hdlr, dec_hdlr);
-    (n_stts, dec_stts) ].
+    (n_stts, dec_stts);
+    (n_stsc, dec_stsc); (n_stsz, dec_stsz); (n_stco, dec_tab 4); (n_stss, dec_tab 4); (n_co64, dec_tab 8);
+    (n_sdtp, dec_sdtp); (n_ctts, dec_ctts); (n_elst, dec_elst); (n_saiz, dec_saiz); (n_saio, dec_saio);
+    (n_sbgp, dec_sbgp); (n_prft, dec_prft); (n_tenc, dec_tenc); (n_frma, dec_frma); (n_vmhd, dec_vmhd);
+    (n_smhd, dec_smhd); (n_nmhd, dec_fullonly); (n_sthd, dec_fullonly); (n_mfro, dec_mfro); (n_mehd, dec_mehd);
+    (n_tfra, dec_tfra); (n_pssh, dec_pssh) ].
 
 (* containers whose decoder is DecodeContainerChildrenSR + AddChild and whose encoder is EncodeContainerSW *)
 Definition cont_table : list (list N) :=
